@@ -162,3 +162,67 @@ def rf23(run):
     if nsites < 2:
         run.analysis_broken(rule, 'only %d extension-folding sites recognised (copy_prop and combine_exts expected)' % nsites)
     return nsites
+
+
+def rf25(run, units=('gen', 'mir')):
+    """a shift of a 32-bit integer *constant* by a run-time amount whose result flows into a 64-bit integer is computed in 32
+    bits: for amounts >= 32 the value is wrong (the strength-reduction code computes masks and powers of two this way)"""
+    rule = 'RF25'
+    run.rule(rule, 'no expression shifts a 32-bit integer constant by a non-constant amount and then widens the result to 64 bits '
+                   '(e.g. (1 << sh) - 1 assigned to an int64_t): masks and powers of two for 64-bit MIR values must be computed in '
+                   '64-bit arithmetic')
+    n = 0
+    for u in units:
+        tu = run.tu(u)
+        for f in tu.func_list:
+            hits = 0
+            for s in f.walk():
+                if s['k'] != 'BinaryOperator' or s['op'] != '<<':
+                    continue
+                t = tu.type(s)
+                if t is None or t.kind != 'int' or t.w != 32:
+                    continue
+                l, r = F.strip(s['c'][0]), F.strip(s['c'][1])
+                if F.const_value(l) is None or F.const_value(r) is not None:
+                    continue
+                n += 1
+                # follow the value through 32-bit arithmetic up to a widening conversion
+                x, p = s, f.parent_of(s)
+                widened = None
+                while p is not None:
+                    if p['k'] in F.CASTS:
+                        pt = tu.type(p)
+                        if pt is not None and pt.kind == 'int' and pt.w == 64:
+                            widened = p
+                            break
+                        if pt is not None and pt.kind == 'int' and pt.w == 32:
+                            x, p = p, f.parent_of(p)
+                            continue
+                        break
+                    if p['k'] == 'BinaryOperator' and p['op'] in ('+', '-', '|', '&', '^', '*') and tu.type(p).w == 32:
+                        x, p = p, f.parent_of(p)
+                        continue
+                    if p['k'] == 'UnaryOperator' and p['op'] in ('-', '~') and tu.type(p).w == 32:
+                        x, p = p, f.parent_of(p)
+                        continue
+                    break
+                # a dominating bound on the amount (sh < 32) would make it safe: look for a comparison of the amount with a
+                # constant <= 32 in an enclosing if condition
+                safe = False
+                if widened is not None:
+                    amt = F.src(r)
+                    for a in f.ancestors(s):
+                        if a['k'] == 'IfStmt':
+                            for c in F.walk(a['c'][0]):
+                                if c['k'] == 'BinaryOperator' and c['op'] in ('<', '<=') and F.src(F.strip(c['c'][0])) == amt:
+                                    k = F.const_value(F.strip(c['c'][1]))
+                                    if k is not None and k <= (32 if c['op'] == '<' else 31):
+                                        safe = True
+                ok = widened is None or safe
+                run.ob(rule, (u, f.name, s['l']), ok, {'site': '%s:%d %s' % (f.relfile(), s['l'], f.name), 'shift': F.src(s),
+                                                      'widened to 64 bits': widened is not None, 'amount bounded below 32': safe})
+                if not ok:
+                    run.violation(rule, f, 'shift %s' % F.src(s),
+                                  '%s is evaluated in 32-bit int and then widened to %s: for a shift amount >= 32 the value is wrong '
+                                  '(use a 64-bit constant)' % (F.src(x), tu.type(widened).s), line=s['l'])
+    return n
